@@ -54,6 +54,8 @@ def plan(tier, seed):
     sh += common.shards({"solver": kinds["solver"]}, per_shard=max(2, per // 20), tier=tier, seed=seed, timeout_s=3000)
     # very long simulations: thousands of recorded frames (one case in the quick tier)
     sh += common.shards({"long": 1 if tier == "quick" else 6}, per_shard=1, tier=tier, seed=seed, timeout_s=3000)
+    # settings or frames for which the analysis itself fails: tracker and offline analysis fail alike
+    sh += common.shards({"failing": 8 if tier == "quick" else 200}, per_shard=8 if tier == "quick" else 50, tier=tier, seed=seed, timeout_s=3000)
     return sh
 
 
@@ -112,6 +114,9 @@ def gen(rng, kind, tier):
         method = str(rng.choice(["structure_factor_mean", "structure_factor_maximum", "droplet_detection", "bogus"]))
         return {"grid": spec, "fields": one_pixel_type([field_desc(rng, spec) for _ in range(n)]), "times": _times(rng, n),
                 "method": method, "source": str(rng.choice(["none", "index", "callable", "callable-on-field"]))}
+    if kind == "failing":
+        return {"n": int(rng.integers(16, 25)), "seed": int(rng.integers(1 << 30)), "frames": int(rng.integers(1, 4)),
+                "how": str(rng.choice(["method-lm", "nan-pixel", "misspelt-option"]))}
     if kind == "long":
         return {"frames": int(rng.choice([8400, 8400, 9100, 16500])), "cells": int(rng.integers(5, 9)),
                 "seed": int(rng.integers(1 << 30)), "minimal_radius": 0.0 if rng.random() < 0.5 else 0.6}
@@ -122,7 +127,7 @@ def gen(rng, kind, tier):
                 "opts": {"threshold": str(rng.choice(["0.5", "auto", "mean"])), "minimal_radius": float(rng.choice([0.0, 1.0])),
                          "refine": bool(rng.random() < 0.3), "modes": 0},
                 "ls_method": str(rng.choice(["structure_factor_mean", "structure_factor_maximum", "droplet_detection"])),
-                "adaptive": bool(rng.random() < 0.5), "files": bool(rng.random() < 0.7)}
+                "adaptive": bool(rng.random() < 0.5), "files": bool(rng.random() < 0.7), "second_run": bool(rng.random() < 0.4)}
     raise ValueError(kind)
 
 
@@ -374,6 +379,27 @@ def run_solver(case, rec):
     rec.hit("call:DropletTracker.handle", len(dt_tr.data))
     off = common.monitored(rec, "from_storage", droplets.EmulsionTimeCourse.from_storage, storage, threshold=thr,
                            minimal_radius=o["minimal_radius"], refine=o["refine"], progress=False)
+    if case.get("second_run") and off.ok:
+        # the simulation is continued with the same tracker object (a second run from the final state): what was
+        # recorded so far stays, the frames of the second run are added
+        storage2 = pde.MemoryStorage()
+        first = snap(dt_tr.data)
+        c2 = common.monitored(rec, "solve", eq.solve, c.result, t_range=t_range / 2, dt=dt, backend="numpy",
+                              tracker=[dt_tr, storage2.tracker(tau)], **kw)
+        if c2.ok:
+            off2 = common.monitored(rec, "from_storage", droplets.EmulsionTimeCourse.from_storage, storage2, threshold=thr,
+                                    minimal_radius=o["minimal_radius"], refine=o["refine"], progress=False)
+            if off2.ok:
+                both = snap(dt_tr.data)
+                s1, s2 = snap(off.result), snap(off2.result)
+                rec.check(both[1] == s1[1] + s2[1] and both[2] == s1[2] + s2[2], "equals-offline",
+                          f"after a second run with the same tracker the recorded data ({len(both[1])} frames) are not the frames of "
+                          f"the first run ({len(first[1])}) followed by those of the second ({len(s2[1])}); {label}")
+                rec.count("solver_runs_continued_with_the_same_tracker")
+        elif common.raised_in_repo(c2.exc):
+            rec.check(False, "no-exception", f"the continued simulation was aborted by a tracker: {common.exc_text(c2.exc)}; {label}")
+        rec.evaluated(nontrivial=True)
+        return
     if rec.check(off.ok, "no-exception", f"from_storage raised {off.exc!r}; {label}"):
         rec.check(snap(dt_tr.data) == snap(off.result), "equals-offline",
                   f"solver-driven tracking differs from the offline analysis: times {dt_tr.data.times} vs {list(off.result.times)}; "
@@ -440,8 +466,51 @@ def run_long(case, rec):
     rec.count(f"long_runs:{N}_frames")
 
 
+def run_failing(case, rec):
+    """The analysis of a frame fails (solver options that do not go with bounds, a NaN pixel inside a droplet, an option
+    the solver does not know): the offline analysis raises - and so does the tracker, instead of recording something
+    else for that frame."""
+    import droplets
+    import pde
+
+    n = case["n"]
+    r = np.random.default_rng(case["seed"])
+    grid = pde.UnitGrid([n, n], periodic=bool(r.integers(0, 2)))
+    fields = []
+    for _ in range(case["frames"]):
+        c = r.uniform(n * 0.3, n * 0.7, 2)
+        f = droplets.DiffuseDroplet(c, float(r.uniform(3.0, 4.5)), 1.0).get_phase_field(grid)
+        if case["how"] == "nan-pixel":
+            f.data[int(c[0]), int(c[1])] = np.nan
+        fields.append(f)
+    ra = {"method-lm": {"least_squares_params": {"method": "lm"}}, "nan-pixel": {},
+          "misspelt-option": {"least_squares_params": {"max_nfevs": 10}}}[case["how"]]
+    times = [0.5 * k for k in range(len(fields))]
+    storage = pde.MemoryStorage.from_fields(times=times, fields=fields)
+    off = common.monitored(rec, "from_storage", droplets.EmulsionTimeCourse.from_storage, storage, refine=True,
+                           refine_args=json.loads(json.dumps(ra)), progress=False)
+    tracker = droplets.DropletTracker(1, refine=True, refine_args=json.loads(json.dumps(ra)))
+    raised = None
+    for f, t in zip(fields, times):
+        h = common.monitored(rec, "DropletTracker.handle", tracker.handle, f, t)
+        if not h.ok:
+            raised = h.exc
+            break
+    label = f"failing analysis ({case['how']}), {len(fields)} frames on UnitGrid([{n}, {n}])"
+    if off.ok:
+        rec.count("failing:offline_analysis_did_not_raise")
+        if raised is None:
+            rec.check(snap(tracker.data) == snap(off.result), "equals-offline", f"recorded data differ from the offline analysis; {label}")
+    else:
+        rec.count(f"failing:offline_raises_{type(off.exc).__name__}")
+        rec.check(raised is not None, "equals-offline",
+                  f"the offline analysis of the stored frames raises {type(off.exc).__name__}: {str(off.exc)[:80]}, but the "
+                  f"tracker recorded {[len(e) for e in tracker.data.emulsions]} droplets per frame without raising; {label}")
+    rec.evaluated(nontrivial=not off.ok)
+
+
 def run(case, rec):
-    {"direct": run_direct, "lengthscale": run_lengthscale, "solver": run_solver, "long": run_long}[case["kind"]](case, rec)
+    {"failing": run_failing, "direct": run_direct, "lengthscale": run_lengthscale, "solver": run_solver, "long": run_long}[case["kind"]](case, rec)
 
 
 def run_shard(spec, rec):
